@@ -92,6 +92,8 @@ Definition s_link : str := [108;105;110;107].
 Definition s_link_type : str := [108;105;110;107;95;116;121;112;101].
 Definition s_target_type : str := [116;97;114;103;101;116;95;116;121;112;101].
 Definition s_DataArray : str := [68;97;116;97;65;114;114;97;121].
+Definition s_DataFrame : str := [68;97;116;97;70;114;97;109;101].
+Definition s_tagged : str := [116;97;103;103;101;100].
 Definition s_label : str := [108;97;98;101;108].
 Definition s_unit : str := [117;110;105;116].
 Definition s_repository : str := [114;101;112;111;115;105;116;111;114;121].
@@ -353,9 +355,12 @@ Definition api_create_mtag (ph : N) (name type : tok) (posh : N) (now : Z) : M N
 Definition api_create_feature (th : N) (dh : N) (ltype : tok) (now : Z) : M N :=
   t <- the_handle th ;; d <- the_handle dh ;;
   guard (ekind_eqb (hk t) KTag || ekind_eqb (hk t) KMultiTag) EOther ;;;
-  guard (ekind_eqb (hk d) KDataArray) EType ;;;
+  guard (ekind_eqb (hk d) KDataArray || ekind_eqb (hk d) KDataFrame) EType ;;;
+  let frame := ekind_eqb (hk d) KDataFrame in
+  (* a data frame cannot be a Tagged feature (UnsupportedLinkType, before anything is made) *)
+  guard (negb (frame && tok_eqb ltype (TS s_tagged))) EOther ;;;
   (* Feature.data setter's test; on refusal Feature.create_new removes the group it had made *)
-  ok <- rd (fun s => store_has_entity s (hown t) CDataArrays (ha d)) ;;
+  ok <- rd (fun s => store_has_entity s (hown t) (if frame then CDataFrames else CDataArrays) (ha d)) ;;
   guard ok ERuntime ;;;
   id <- gen_id ;;
   ca <- wr_ret (fun s => ensure_group s (ha t) (TS s_features)) ;;
@@ -363,7 +368,7 @@ Definition api_create_feature (th : N) (dh : N) (ltype : tok) (now : Z) : M N :=
   wr (fun s => set_attr s a k_id (Some (AText id))) ;;;
   wr (fun s => set_attr s a s_link_type (Some (AText ltype))) ;;;
   auto_touch_for c_Feature s_link_type a now ;;;
-  wr (fun s => set_attr s a s_target_type (Some (AText (TS s_DataArray)))) ;;;
+  wr (fun s => set_attr s a s_target_type (Some (AText (TS (if frame then s_DataFrame else s_DataArray))))) ;;;
   wr (fun s => add_link s a (TS s_data) (ha d)) ;;;
   auto_touch_for c_Feature s_data a now ;;;
   touch_created a now ;;;
@@ -598,11 +603,15 @@ Definition api_set_link (ph : N) (r : rkind) (xh : option N) (now : Z) : M unit 
   | RFeatureData, Some x' =>
       x <- the_handle x' ;;
       guard (ekind_eqb (hk p) KFeature) EOther ;;;
-      guard (ekind_eqb (hk x) KDataArray) EType ;;;
+      guard (ekind_eqb (hk x) KDataArray || ekind_eqb (hk x) KDataFrame) EType ;;;
+      let frame := ekind_eqb (hk x) KDataFrame in
       (* parblock = self._parent._parent: the block of the feature's tag; membership by NAME *)
-      ok <- rd (fun s => store_has_entity s (hown2 p) CDataArrays (ha x)) ;;
+      ok <- rd (fun s => store_has_entity s (hown2 p) (if frame then CDataFrames else CDataArrays) (ha x)) ;;
       guard ok ERuntime ;;;
-      wr (fun s => set_attr s (ha p) s_target_type (Some (AText (TS s_DataArray)))) ;;;
+      (* a Tagged feature cannot point at a data frame (UnsupportedLinkType) *)
+      tagged <- rd (fun s => opt_eqb tok_eqb (attr_tok s (ha p) s_link_type) (Some (TS s_tagged))) ;;
+      guard (negb (frame && tagged)) EOther ;;;
+      wr (fun s => set_attr s (ha p) s_target_type (Some (AText (TS (if frame then s_DataFrame else s_DataArray))))) ;;;
       wr (fun s => add_link s (ha p) (TS s_data) (ha x)) ;;;
       auto_touch_for c_Feature s_data (ha p) now
   | RFeatureData, None => fail EType
